@@ -79,8 +79,12 @@ struct Body {
     int thr = (id >= 0 && id < kMaxTasks) ? g_throwOf[id].load(std::memory_order_relaxed) : -1;
     if (thr >= 0) {
       if (id == g_lateId.load(std::memory_order_relaxed)) {
-        g_lateStarted.store(1, HS_REL);
-        while (!g_lateGo.load(HS_ACQ)) vrt::sleepUs(20);
+        if (tl_callId >= 0) {
+          g_lateStarted.store(2, HS_REL); // run inline inside the scheduling call: holding it would block the scheduler itself
+        } else {
+          g_lateStarted.store(1, HS_REL);
+          while (!g_lateGo.load(HS_ACQ)) vrt::sleepUs(20);
+        }
       }
       int need = g_barrierNeed.load(std::memory_order_relaxed);
       if (need > 1) {
@@ -881,6 +885,174 @@ static void runLateThrower(long idx, vrt::Rng& r) {
   vrt::caseEnd(J().kv("thrown", 2).kv("deliveredByWait", static_cast<long>(delivered.size())), spec.str(), {"late-thrower-first", std::string("kind:") + kindName(kind), "delivered-by-wait"});
 }
 
+// Scripted family "throw-after-cancel": the thrower is already running (held inside its body), the set
+// is then cancelled by something other than an exception (owner, another thread, or a kOn parent's
+// cascade), and only then the body throws X. The exception must still be captured: the next completed
+// wait()/tryWait() rethrows X exactly once, later waits deliver nothing and wait() reports cancellation.
+namespace {
+struct TacShared { // static storage, relaxed atomics (written by a pool task in the cascade variant)
+  std::atomic<int> delivered[8];
+  std::atomic<int> nDelivered{0}, earlyDelivery{0}, lateThrow{0}, waitFalse{0}, tryTrueAfter{0}, done{0}, childBornCancelled{0};
+  void reset() {
+    for (auto& d : delivered) d.store(-1, std::memory_order_relaxed);
+    nDelivered.store(0, std::memory_order_relaxed);
+    earlyDelivery.store(0, std::memory_order_relaxed);
+    lateThrow.store(0, std::memory_order_relaxed);
+    waitFalse.store(0, std::memory_order_relaxed);
+    tryTrueAfter.store(0, std::memory_order_relaxed);
+    done.store(0, std::memory_order_relaxed);
+    childBornCancelled.store(0, std::memory_order_relaxed);
+  }
+  void deliver(int id) {
+    int at = nDelivered.fetch_add(1, std::memory_order_relaxed);
+    if (at < 8) delivered[at].store(id, std::memory_order_relaxed);
+  }
+};
+TacShared g_tac;
+
+// the waits that follow the release of the thrower; run by the thread that owns / waits for `set`
+void tacWaits(SetH& set, bool useTry, int extraWaits) {
+  bool first = true;
+  for (int w = 0; w < 1 + extraWaits; ++w) {
+    bool isTry = useTry && (w == 0 || (w & 1) == 0);
+    try {
+      if (isTry) {
+        // tryWait observes completion only when nothing is outstanding; until then keep calling it (it may
+        // run queued tasks, including the thrower, on this thread)
+        for (;;) {
+          bool wasComplete = set.outstanding() == 0;
+          bool r = set.tryWait(1);
+          if (r) {
+            g_tac.tryTrueAfter.fetch_add(1, std::memory_order_relaxed); // a cancelled set never reports true
+            break;
+          }
+          if (wasComplete || !first) break;
+          vrt::sleepUs(20);
+        }
+      } else {
+        bool r = set.wait();
+        if (!r) g_tac.waitFalse.fetch_add(1, std::memory_order_relaxed);
+      }
+    } catch (const VEx& e) {
+      if (!first) g_tac.lateThrow.fetch_add(1, std::memory_order_relaxed);
+      g_tac.deliver(e.id);
+      if (g_mon.inflight.load() != 0 || set.outstanding() != 0) g_tac.earlyDelivery.fetch_add(1, std::memory_order_relaxed);
+    }
+    first = false;
+    vrt::progress();
+  }
+}
+} // namespace
+
+static void runThrowAfterCancel(long idx, vrt::Rng& r) {
+  const int variant = static_cast<int>((idx / 8) % 3); // 0 owner cancels, 1 another thread cancels, 2 cascade from a kOn parent
+  int pool = static_cast<int>(r.range(1, 4));
+  int kind = static_cast<int>(r.below(3));
+  if (variant == 1 && kind == 0) kind = static_cast<int>(r.range(1, 2)); // a TaskSet is only used by its owner thread
+  int api = static_cast<int>(r.pick(std::vector<int>{0, 1, 1, 2, 3, 3}));
+  int count = api < 2 ? 1 : static_cast<int>(r.range(1, 12));
+  int throwAt = static_cast<int>(r.below(static_cast<uint64_t>(count)));
+  int extra = static_cast<int>(r.range(0, 10));
+  bool useTry = r.chance(0.5);
+  int extraWaits = static_cast<int>(r.range(1, 3));
+  int parentKind = static_cast<int>(r.below(3));
+  if (variant == 2) {
+    kind = static_cast<int>(r.range(1, 2)); // child: bulk ConcurrentTaskSet (heavy / light)
+    api = r.chance(0.7) ? 3 : 2;
+    count = static_cast<int>(r.range(1, 12));
+    throwAt = static_cast<int>(r.below(static_cast<uint64_t>(count)));
+  }
+  const char* vn[] = {"owner", "other-thread", "cascade"};
+  J spec = J().kv("scripted", "throw-after-cancel").kv("cancel", vn[variant]).kv("pool", pool).kv("kind", kindName(kind)).kv("api", apiName(api)).kv("count", count).kv("throwAt", throwAt)
+               .kv("extra", extra).kv("tryWait", useTry).kv("extraWaits", extraWaits).kv("parentKind", kindName(parentKind));
+  vrt::caseBegin(idx, std::string("throw-after-cancel/") + vn[variant] + "/" + kindName(kind) + "/" + apiName(api), spec);
+  resetBodies(count + extra + 8);
+  g_tac.reset();
+  const int X = throwAt; // ids [0, count) are the scheduling call that contains the thrower, extras follow
+  g_throwOf[X].store(X, std::memory_order_relaxed);
+  g_lateId.store(X, std::memory_order_relaxed);
+  vrt::watchdogArm();
+  bool parentWaitOk = true;
+  int parentThrew = -1;
+  {
+    dispenso::ThreadPool p(static_cast<size_t>(pool));
+    vrt::progress();
+    if (variant < 2) {
+      SetH set(kind, p, dispenso::ParentCascadeCancel::kOff, 4);
+      g_sentinel.watch(set.base(), &p);
+      int direct = doSchedule(set, api, 0, count);
+      if (direct >= 0) g_tac.deliver(direct); // only possible if the body ran inline (then it was not held)
+      if (extra) doSchedule(set, 3, count, extra);
+      while (!g_lateStarted.load(HS_ACQ) && set.outstanding() != 0) vrt::sleepUs(20);
+      if (variant == 0) {
+        set.cancel();
+      } else {
+        SetH* sp = &set;
+        std::thread t([sp]() { sp->cancel(); });
+        t.join();
+      }
+      g_lateGo.store(1, HS_REL);
+      tacWaits(set, useTry, extraWaits);
+      g_sentinel.unwatch();
+    } else {
+      // parent owned by this thread; its task T creates the kOn child, bulk-schedules into it and waits for it
+      SetH parent(parentKind, p, dispenso::ParentCascadeCancel::kOff, 4);
+      dispenso::ThreadPool* pp = &p;
+      parent.scheduleFQ([pp, kind, api, count, useTry, extraWaits]() {
+        SetH child(kind, *pp, dispenso::ParentCascadeCancel::kOn, 4);
+        if (child.canceled()) g_tac.childBornCancelled.store(1, std::memory_order_relaxed);
+        int direct = doSchedule(child, api, 0, count);
+        if (direct >= 0) g_tac.deliver(direct);
+        // this wait may run the thrower itself (it is then held inside the wait) or help while a worker holds it
+        tacWaits(child, useTry, extraWaits);
+        g_tac.done.store(1, HS_REL);
+      });
+      // cancel the parent (cascading into the child) once the child's thrower is running
+      while (!g_lateStarted.load(HS_ACQ) && !g_tac.done.load(HS_ACQ)) vrt::sleepUs(20);
+      parent.cancel();
+      g_lateGo.store(1, HS_REL);
+      while (!g_tac.done.load(HS_ACQ)) vrt::sleepUs(30);
+      try {
+        parentWaitOk = parent.wait();
+      } catch (const VEx& e) {
+        parentThrew = e.id;
+      }
+    }
+  }
+  vrt::watchdogDisarm();
+  const int started = g_lateStarted.load(std::memory_order_relaxed);
+  const bool held = started == 1; // the thrower was running and held when the cancel happened
+  std::vector<long> d;
+  int nd = std::min(8, g_tac.nDelivered.load());
+  for (int i = 0; i < nd; ++i) d.push_back(g_tac.delivered[i].load());
+  if (held) {
+    if (d.size() != 1 || d[0] != X) {
+      vrt::violation("a task that was already running when the set was cancelled threw afterwards: the waits did not deliver exactly that exception once",
+                     J().arr("delivered", d).kv("expected", X).kv("cancel", vn[variant]), d.empty() ? "lost" : (d.size() > 1 ? "twice" : "wrong-exception"));
+    }
+    if (g_tac.lateThrow.load()) vrt::violation("a wait after the completing one threw", J().arr("delivered", d), "spurious");
+    if (g_tac.earlyDelivery.load()) vrt::violation("exception delivered while tasks of the set were still unfinished", J(), "early-delivery");
+    if (g_tac.waitFalse.load()) vrt::violation("wait() on the cancelled set did not report cancellation", J(), "wait-result", "C04");
+    if (g_tac.tryTrueAfter.load()) vrt::violation("tryWait() returned true on a cancelled set", J(), "trywait-result", "C04");
+    if (variant == 2) {
+      if (parentThrew >= 0) vrt::violation("the child's exception was also delivered by the parent's wait()", J().kv("id", parentThrew), "twice");
+      else if (!parentWaitOk) vrt::violation("parent wait() did not report cancellation", J(), "wait-result", "C04");
+    }
+  }
+  std::vector<std::string> cls{std::string("kind:") + kindName(kind)};
+  if (held) {
+    cls.push_back(variant == 2 ? "throw-after-cascade-cancel" : "throw-after-user-cancel");
+    if (variant == 1) cls.push_back("throw-after-other-thread-cancel");
+    if (api >= 2) cls.push_back("throw-after-cancel:bulk");
+    else cls.push_back("throw-after-cancel:single");
+    if (useTry) cls.push_back("throw-after-cancel:tryWait");
+    if (!d.empty()) cls.push_back("delivered-by-wait");
+  } else {
+    cls.push_back("throw-after-cancel:not-held");
+  }
+  vrt::caseEnd(J().kv("thrown", g_mon.ran[X].load()).kv("held", held).kv("deliveredByWait", static_cast<long>(d.size())).kv("childBornCancelled", g_tac.childBornCancelled.load()), held ? spec.str() : "", cls);
+}
+
 static void runC05() {
   const long n = vrt::g_args.getInt("n", vrt::thorough() ? 20000 : 1600);
   g_sentinel.start();
@@ -889,6 +1061,10 @@ static void runC05() {
     vrt::Rng rng = vrt::caseRng(idx);
     if (idx % 8 == 3) {
       runLateThrower(idx, rng);
+      continue;
+    }
+    if (idx % 8 == 5) {
+      runThrowAfterCancel(idx, rng);
       continue;
     }
     Spec05 s;
